@@ -5,10 +5,12 @@ Two monitors on the real Enforcer:
    documented order may pass (decisions, not internals, are observed);
  * file selection: the finite table (how the option was set x which files exist x fallback switch x explicit argument)
    enumerated completely; the chosen file is identified through the decisions it produces."""
+import atexit
 import copy
 import itertools
 import json
 import os
+import random
 
 from pv.core import env
 from pv.gen import files
@@ -23,7 +25,16 @@ RULE = ('strata: X = exhaustive layering of 2 names over 5 layer slots (register
         'sub/x.yaml Z.yaml z.json m.yaml created in shuffled order, every file independently JSON / YAML / line-style YAML, paths absolute or relative to a configuration directory; '
         'Z = exhaustive file-selection table 7 ways of setting policy_file x 8 existence patterns x fallback switch x '
         'explicit argument (none, a fourth file, or one of the three names themselves) = 560 rows. Each configuration is decided for every name under every single-role credential; in half of the configurations the registered defaults declare scope types and every decision is repeated with a wrongly scoped token (must be denied whichever layer wins). '
-        'Non-trivial = at least one name is defined in two or more layers; distinct = distinct configuration.')
+        'Non-trivial = at least one name is defined in two or more layers; distinct = distinct configuration. '
+        'H = on about half of the X and Y configurations the living enforcer then goes through a history of 2-3 steps, each step one or two '
+        'file operations (drop names from a file, re-save the main file / a policy.d file with identical content, re-save with changed '
+        'content, delete or add a policy.d file; all through the logical clock so that file and directory mtimes advance) followed by an '
+        'implicit, explicit or forced load, and every name is decided again against the fold of the files as they are now. '
+        'W = Y configurations (mostly those with relative names) and the whole file-selection table (stratum ZC = 560 rows with every '
+        'look-alike + the 112 rows without explicit argument with only the look-alikes of what the configuration directory lacks) are also '
+        'run with the process working directory set to a decoy directory holding files and directories of the same relative names with '
+        'other contents: relative names are looked up in the configuration directories '
+        'only, what is missing there is skipped.')
 ASSUMPTIONS = ['lexicographic order = Python sorted() of the file names (code-point order)',
                'oslo_policy.opts._options is swapped for a pristine deep copy around cases that call set_defaults',
                'single-role credentials distinguish the layers because each layer uses its own role']
@@ -33,7 +44,11 @@ LEVEL_TEXT = ('The file-selection table and the small layering space are enumera
 LEVEL_NOTE = 'trusted: the fold that computes the expected effective layer; PyYAML/json as writers'
 PLAN = {'quick': dict(shards=4, wall=60), 'thorough': dict(shards=16, wall=400)}
 MIN = {'evaluations': 600, 'decisions': 5000, 'allow_decisions': 300, 'file_selection_rows': 560,
-       'configs_with_shadowing': 300, 'scoped_decisions': 500, 'reloads_after_rewrite': 200}
+       'configs_with_shadowing': 300, 'scoped_decisions': 500, 'reloads_after_rewrite': 200,
+       'reload_histories': 300, 'history_steps': 700, 'history_steps_two_operations': 200,
+       'history_steps_main_resaved_identical': 60, 'history_steps_names_dropped_or_file_deleted': 150,
+       'history_decisions': 5000, 'cwd_decoy_layerings': 100, 'cwd_decoy_relative_layerings': 80,
+       'cwd_decoy_name_missing_in_config_dir': 80, 'file_selection_rows_cwd_decoy': 672}
 ANCHORS = ['oslo_policy.policy:Enforcer.load_rules', 'oslo_policy.policy:Enforcer._walk_through_policy_directory',
            'oslo_policy.policy:pick_default_policy_file', 'oslo_policy.policy:parse_file_contents',
            'oslo_policy.policy:Enforcer.enforce']
@@ -48,11 +63,91 @@ def lid_role(lid):
     return lid.replace('/', '_').replace('.', '_')
 
 
+def role_of(lid, ver=0):
+    """Role used by version `ver` of layer `lid` (version 0 = the content the configuration starts with)."""
+    return lid_role(lid) + ('_v%d' % ver if ver else '')
+
+
+def fold_now(dirs, cur, pth):
+    """Expected effective layer of every name for the files as they are NOW: cur = {lid: {name: version}} of the registered
+    default and of every file that currently exists, pth = {lid: path relative to the tree}."""
+    order = [lid for lid in ('default', 'main') if lid in cur]
+    for d in dirs:
+        in_dir = sorted((lid for lid in cur if pth.get(lid) and os.path.dirname(pth[lid]) == d),
+                        key=lambda lid: os.path.basename(pth[lid]))
+        order += [lid for lid in in_dir if not os.path.basename(pth[lid]).startswith('.')]
+    eff = {}
+    for lid in order:
+        for n, v in cur[lid].items():
+            eff[n] = role_of(lid, v)
+    return eff
+
+
+class decoy_cwd:
+    """Working directory of the (single-threaded) worker process set to a directory outside every configuration directory that
+    holds look-alikes: files / directories with the relative names the configuration uses, with other contents (role CWD...).
+    kind 'all': every name in `entries`; kind 'missing': only those that the configuration directory `root` lacks."""
+
+    def __init__(self, kind, root, entries):
+        self.kind, self.root, self.entries = kind, root, entries
+        self.tree = self.old = None
+        self.lacking = 0
+
+    def __enter__(self):
+        if not self.kind or not os.path.isabs(self.root):
+            return self
+        wanted = []
+        for rel, content in self.entries:
+            missing = not os.path.lexists(os.path.join(self.root, rel.split('/')[0]))
+            if self.kind == 'missing' and not missing:
+                continue
+            if missing:
+                self.lacking += 1
+            wanted.append((rel, content))
+        # nothing may ever read or write a decoy, so one directory per distinct content serves the whole worker process
+        key = json.dumps(wanted, sort_keys=True)
+        self.tree = _DECOYS.get(key)
+        if self.tree is None or not os.path.isdir(self.tree.root):
+            if not _DECOYS:
+                atexit.register(_drop_decoys)
+            self.tree = _DECOYS[key] = files.Tree(dirs=())
+            for rel, content in wanted:
+                if '/' in rel:
+                    self.tree.mkdir(os.path.dirname(rel))
+                self.tree.write(rel, content, 'json')
+        self.old = os.getcwd()
+        os.chdir(self.tree.root)
+        return self
+
+    def __exit__(self, *a):
+        if self.old is not None:
+            os.chdir(self.old)
+        return False
+
+
+_DECOYS = {}
+
+
+def _drop_decoys():
+    for t in _DECOYS.values():
+        t.cleanup()
+    _DECOYS.clear()
+
+
 def check_layering(ctx, case):
-    """case: names, dirs (configured order), layers: list of [lid, relpath|None, {name: True}], fmts, write_order"""
+    """case: names, dirs (configured order), layers: list of [lid, relpath|None, {name: True}], fmts, write_order;
+    optional: rewrite, history (list of steps {ops: [{op, lid, path, defs: {name: version}|None, fmt}], load}), cwd (decoy kind)"""
+    tree = files.Tree(dirs=())
+    try:
+        _check_layering(ctx, case, tree)
+    finally:
+        tree.cleanup()
+
+
+def _check_layering(ctx, case, tree):
     from oslo_policy import policy
     names = case['names']
-    tree = files.Tree(dirs=())
+    decoy = None
     try:
         for d in case['dirs']:
             if d != 'dmissing':
@@ -75,6 +170,19 @@ def check_layering(ctx, case):
         for lid, p, defs in order:
             for n in defs:
                 eff[n] = lid_role(lid)
+        if case.get('cwd'):
+            # look-alikes of every relative name the configuration uses, in the working directory (which is not a configuration
+            # directory): the main file and every configured directory, each defining EVERY name (also the never-defined one)
+            look = {n: 'role:CWD' for n in names}
+            decoy = decoy_cwd(case['cwd'], tree.root, [('policy.yaml', look)] + [(d + '/' + fn, look) for d in case['dirs']
+                                                                                for fn in ('zz.yaml',)])
+            decoy.__enter__()
+            if decoy.tree is not None:
+                ctx.count('cwd_decoy_layerings')
+                if case.get('relative'):
+                    ctx.count('cwd_decoy_relative_layerings')
+                    if decoy.lacking:
+                        ctx.count('cwd_decoy_name_missing_in_config_dir')
         conf = tree.conf(policy_dirs=[tree.path(d) for d in case['dirs']], relative=bool(case.get('relative')))
         enf = policy.Enforcer(conf)
         scoped = set()
@@ -86,7 +194,7 @@ def check_layering(ctx, case):
                     if st:
                         scoped.add(n)
                     enf.register_default(policy.RuleDefault(n, content['default'][n], scope_types=st))
-        roles = sorted({lid_role(l[0]) for l in case['layers']} | {'SUB', 'nobody'})
+        roles = sorted({lid_role(l[0]) for l in case['layers']} | {'SUB', 'nobody'} | ({'CWD'} if case.get('cwd') else set()))
         shadow = any(sum(1 for l in case['layers'] if n in l[2] and not (l[1] and os.path.basename(l[1]).startswith('.'))) > 1
                      for n in names)
         ctx.case(case, nontrivial=shadow, stratum=case['s'])
@@ -118,6 +226,8 @@ def check_layering(ctx, case):
                 if got != want:
                     if isinstance(got, str):
                         key = 'load-or-enforce-raises'
+                    elif r == 'CWD':
+                        key = 'relative-name-taken-from-working-directory'
                     elif n not in eff:
                         key = 'undefined-name-allowed'
                     elif r in ('SUB',) or r.endswith('_hidden_yaml'):
@@ -145,8 +255,68 @@ def check_layering(ctx, case):
                             ctx.violation('layering-wrong-after-reload', case,
                                           {'rewritten': v[1], 'name': n, 'role': r, 'expected_layer': eff.get(n), 'observed': got})
                             return
+        if case.get('history'):
+            # the operator keeps editing the files under the living enforcer; after every step (file operations, then a load)
+            # each name must be decided by the documented fold of the files AS THEY ARE NOW
+            cur = {l[0]: {n: 0 for n in l[2]} for l in case['layers']}
+            pth = {l[0]: l[1] for l in case['layers'] if l[1]}
+            # a check string can only stem from content that existed at some time: per name, the roles of every (layer, version)
+            # that ever defined it, plus the ignored sub-directory, the decoy and a role nobody uses
+            cand = {n: {'SUB', 'nobody'} | ({'CWD'} if case.get('cwd') else set()) for n in names}
+            for lid, defs in cur.items():
+                for n in defs:
+                    cand[n].add(role_of(lid))
+            for step in case['history']:
+                for op in step['ops']:
+                    for n, v in (op.get('defs') or {}).items():
+                        cand[n].add(role_of(op['lid'], v))
+            ctx.count('reload_histories')
+            for k, step in enumerate(case['history']):
+                dropped = False
+                for op in step['ops']:
+                    if op['op'] == 'delete':
+                        tree.delete(op['path'])
+                        dropped = dropped or bool(cur.get(op['lid']))
+                        cur.pop(op['lid'], None)
+                        pth.pop(op['lid'], None)
+                    else:
+                        tree.write(op['path'], {n: 'role:' + role_of(op['lid'], v) for n, v in op['defs'].items()}, op['fmt'])
+                        dropped = dropped or bool(set(cur.get(op['lid'], ())) - set(op['defs']))
+                        if op['lid'] == 'main' and cur.get('main') == op['defs']:
+                            ctx.count('history_steps_main_resaved_identical')
+                        cur[op['lid']] = dict(op['defs'])
+                        pth[op['lid']] = op['path']
+                ctx.count('history_steps')
+                if len(step['ops']) > 1:
+                    ctx.count('history_steps_two_operations')
+                if dropped:
+                    ctx.count('history_steps_names_dropped_or_file_deleted')
+                eff = fold_now(case['dirs'], cur, pth)
+                try:
+                    if step['load'] == 'explicit':
+                        enf.load_rules()
+                    elif step['load'] == 'force':
+                        enf.load_rules(True)
+                except Exception as e:
+                    ctx.violation('load-or-enforce-raises', case, {'history_step': k, 'step': step, 'raised': type(e).__name__ + ': ' + str(e)[:200]})
+                    return
+                for n in names:
+                    for r in sorted(cand[n]):
+                        try:
+                            got = bool(enf.enforce(n, {}, {'roles': [r]}))
+                        except Exception as e:
+                            got = 'EXC:' + type(e).__name__
+                        ctx.count('history_decisions')
+                        if got != (eff.get(n) == r):
+                            key = ('relative-name-taken-from-working-directory' if r == 'CWD' and got is True
+                                   else 'layering-wrong-after-reload')
+                            ctx.violation(key, case,
+                                          {'history_step': k, 'step': step, 'name': n, 'role': r, 'expected_layer': eff.get(n),
+                                           'observed': got, 'files_now': {lid: cur[lid] for lid in sorted(cur)}})
+                            return
     finally:
-        tree.cleanup()
+        if decoy is not None:
+            decoy.__exit__()
 
 
 def gen_layering(rnd):
@@ -171,8 +341,88 @@ def gen_layering(rnd):
     dirs = list(DIRS)
     if rnd.random() < 0.3:
         rnd.shuffle(dirs)
-    return dict(s='Y', names=names, dirs=dirs, layers=layers, fmts=fmts, write_order=order, subdir=True, scoped=rnd.random() < 0.5, rewrite=rnd.choice([0, 0, 1, 2, 3]),
+    case = dict(s='Y', names=names, dirs=dirs, layers=layers, fmts=fmts, write_order=order, subdir=True, scoped=rnd.random() < 0.5, rewrite=rnd.choice([0, 0, 1, 2, 3]),
                 relative=rnd.random() < 0.4)
+    # (drawn after everything above so that the older strata keep their distribution)
+    if rnd.random() < (0.6 if case['relative'] else 0.05):
+        case['cwd'] = rnd.choice(['all', 'all', 'missing'])
+    if rnd.random() < 0.35:
+        case['history'] = gen_history(rnd, case)
+    return case
+
+
+H_OPS = ['drop', 'drop', 'resave-main', 'resave', 'change', 'delete', 'add']
+EXTRA_FILES = ['k1.yaml', 'A.yaml', 'zz9.json']
+
+
+def gen_history(rnd, case):
+    """2-3 steps on the living enforcer.  Each step: one or two operations on different files, then a load.
+    Operations are stored by their outcome (the mapping name -> version the file holds afterwards) so that replay needs no
+    generator: {op, lid, path, defs|None, fmt}."""
+    may_define = case['names'][:-1]                 # the last name stays defined nowhere, whatever happens
+    cur = {l[0]: {n: 0 for n in l[2]} for l in case['layers'] if l[1]}
+    pth = {l[0]: l[1] for l in case['layers'] if l[1]}
+    fmts = dict(case['fmts'])
+    real_dirs = [d for d in case['dirs'] if d != 'dmissing']
+    ver = [0]
+
+    def fresh():
+        ver[0] += 1
+        return ver[0]
+
+    steps = []
+    for _ in range(rnd.choice([2, 2, 3])):
+        ops, touched = [], set()
+        for kind in rnd.sample(H_OPS, rnd.choice([1, 2, 2])):
+            in_dirs = sorted(lid for lid in cur if lid != 'main' and lid not in touched)
+            anyfile = sorted(lid for lid in cur if lid not in touched)
+            lid = defs = None
+            if kind == 'drop':
+                pool = [l for l in (in_dirs if rnd.random() < 0.8 else anyfile) if cur[l]]
+                if pool:
+                    lid = rnd.choice(pool)
+                    gone = set(rnd.sample(sorted(cur[lid]), rnd.randint(1, len(cur[lid]))))
+                    defs = {n: v for n, v in cur[lid].items() if n not in gone}
+            elif kind == 'resave-main':
+                if 'main' in cur and 'main' not in touched:
+                    lid, defs = 'main', dict(cur['main'])
+            elif kind == 'resave':
+                if in_dirs:
+                    lid = rnd.choice(in_dirs)
+                    defs = dict(cur[lid])
+            elif kind == 'change':
+                if anyfile:
+                    lid = rnd.choice(anyfile)
+                    defs = {}
+                    for n in may_define:
+                        if rnd.random() < 0.5:
+                            defs[n] = cur[lid][n] if (n in cur[lid] and rnd.random() < 0.5) else fresh()
+                    if defs == cur[lid]:
+                        defs[may_define[0]] = fresh()
+            elif kind == 'delete':
+                if in_dirs:
+                    lid = rnd.choice(in_dirs)
+                    ops.append({'op': 'delete', 'lid': lid, 'path': pth[lid], 'defs': None, 'fmt': None})
+                    touched.add(lid)
+                    del cur[lid], pth[lid]
+                continue
+            elif kind == 'add':
+                d = rnd.choice(real_dirs)
+                free = [d + '/' + fn for fn in FILESETS.get(d, []) + EXTRA_FILES if d + '/' + fn not in cur and d + '/' + fn not in touched]
+                if free:
+                    lid = rnd.choice(free)
+                    pth[lid] = lid
+                    fmts[lid] = 'json' if lid.endswith('.json') else rnd.choice(['json', 'yaml', 'yaml-lines'])
+                    v = fresh()
+                    defs = {n: v for n in may_define if rnd.random() < 0.6} or {may_define[0]: v}
+            if lid is None:
+                continue
+            ops.append({'op': kind, 'lid': lid, 'path': pth[lid], 'defs': defs, 'fmt': fmts.get(lid, 'json')})
+            touched.add(lid)
+            cur[lid] = defs
+        if ops:
+            steps.append({'ops': ops, 'load': rnd.choice(['implicit', 'implicit', 'explicit', 'force'])})
+    return steps
 
 
 def exhaustive_layerings():
@@ -191,11 +441,16 @@ def exhaustive_layerings():
                     layers.append([lid, p, defs])
             fmts = {l[0]: ('json', 'yaml', 'yaml-lines')[(i + k) % 3] for k, l in enumerate(layers) if l[1]}
             order = [l[0] for l in reversed(layers)]
-            yield dict(s='X', names=['n1', 'n2', 'n3'], dirs=['d1', 'd2'], layers=layers, fmts=fmts, write_order=order, scoped=bool(i % 2), rewrite=(i % 3))
+            case = dict(s='X', names=['n1', 'n2', 'n3'], dirs=['d1', 'd2'], layers=layers, fmts=fmts, write_order=order, scoped=bool(i % 2), rewrite=(i % 3))
+            hr = random.Random('C09/X/history/%d' % i)
+            if hr.random() < 0.3:
+                case['history'] = gen_history(hr, case)
+            yield case
             i += 1
 
 
 # ---------------------------------------------------------------------------
+SEL_FILES = ('policy.yaml', 'policy.json', 'other.yaml', 'explicit.yaml')
 HOW = ['default', 'setdef_yaml', 'setdef_other', 'cfgfile_yaml', 'cfgfile_other', 'override_yaml', 'override_other']
 
 
@@ -209,12 +464,17 @@ def check_selection(ctx, case):
     if pristine is not None:
         opts._options = copy.deepcopy(pristine)
     tree = files.Tree(dirs=())
+    decoy = None
     try:
         d = tree.root
         for fn, ex in (('policy.yaml', ex_yaml), ('policy.json', ex_json), ('other.yaml', ex_other), ('explicit.yaml', 1)):
             if ex:
                 tree.write(fn, {'which': 'role:' + fn.replace('.', '_')}, 'json')
         conf = cfg.ConfigOpts()
+        if case.get('cwd'):
+            # every name of this table is relative: the working directory holds look-alikes (it is not a configuration directory)
+            decoy = decoy_cwd(case['cwd'], d, [(fn, {'which': 'role:CWD_' + fn.replace('.', '_')}) for fn in SEL_FILES])
+            decoy.__enter__()
         if how.startswith('cfgfile'):
             tree.write_text('svc.conf', '[oslo_policy]\npolicy_file=%s\npolicy_dirs=\n'
                             % ('policy.yaml' if how.endswith('yaml') else 'other.yaml'))
@@ -249,6 +509,23 @@ def check_selection(ctx, case):
             except Exception as e:
                 got.append('EXC:' + type(e).__name__)
         expd = [want] if exists else []
+        if case.get('cwd'):
+            # same table, same expectation: the file is looked up in the configuration directory only; one that is missing there
+            # is skipped, whatever the working directory holds
+            ctx.case(case, nontrivial=True, stratum='ZC')
+            if decoy.tree is not None:
+                ctx.count('file_selection_rows_cwd_decoy')
+            for fn in SEL_FILES:
+                try:
+                    if enf.enforce('which', {}, {'roles': ['CWD_' + fn.replace('.', '_')]}):
+                        got.append('CWD:' + fn)
+                except Exception as e:
+                    got.append('EXC:' + type(e).__name__)
+            if got != expd:
+                key = ('relative-name-taken-from-working-directory' if any(g.startswith('CWD:') for g in got) else
+                       'legacy-json-fallback-wrong' if ('policy.json' in got or want == 'policy.json') else 'wrong-policy-file-selected')
+                ctx.violation(key, case, {'row': case, 'expected_file': expd, 'observed_file': got})
+            return
         ctx.case(case, nontrivial=True, stratum='Z')
         ctx.count('file_selection_rows')
         ctx.observe('selected_files', ','.join(got) or 'none')
@@ -256,6 +533,8 @@ def check_selection(ctx, case):
             key = 'legacy-json-fallback-wrong' if ('policy.json' in got or want == 'policy.json') else 'wrong-policy-file-selected'
             ctx.violation(key, case, {'row': case, 'expected_file': expd, 'observed_file': got})
     finally:
+        if decoy is not None:
+            decoy.__exit__()
         if pristine is not None:
             opts._options = pristine
         tree.cleanup()
@@ -271,6 +550,17 @@ def run(ctx):
             continue
         check_selection(ctx, dict(s='Z', how=how, yaml=y, json=j, other=o, fallback=fb, explicit=ex))
     ctx.stratum('Z', exhaustive=True)
+    # ZC: the same table with look-alike files in the working directory
+    idx = 0
+    for how, y, j, o, fb, ex in itertools.product(HOW, [0, 1], [0, 1], [0, 1], [True, False], [None, 'explicit.yaml', 'policy.yaml', 'policy.json', 'other.yaml']):
+        # every look-alike present: the whole table; only the look-alikes of what the configuration directory lacks: the rows
+        # without an explicit argument
+        for kind in ('all', 'missing') if ex is None else ('all',):
+            idx += 1
+            if not ctx.mine(idx):
+                continue
+            check_selection(ctx, dict(s='ZC', how=how, yaml=y, json=j, other=o, fallback=fb, explicit=ex, cwd=kind))
+    ctx.stratum('ZC', exhaustive=True)
     ctx.sample(dict(s='Z', how='default', yaml=0, json=1, other=0, fallback=True, explicit=None), 'Z')
     # X: exhaustive small layering
     for i, case in enumerate(exhaustive_layerings()):
@@ -296,7 +586,7 @@ def run(ctx):
 
 
 def replay(ctx, case):
-    if case.get('s') == 'Z':
+    if case.get('s') in ('Z', 'ZC'):
         check_selection(ctx, case)
     else:
         check_layering(ctx, case)
